@@ -39,6 +39,26 @@ fn run(ctx: &Ctx) {
     ctx.run_tape("tail", tail, ctx.pick(120_000, 300_000), 500);
     ctx.run_tape("differential", differential, ctx.pick(160_000, 400_000), 500);
     ctx.run_tape("differential_raw", differential_raw, ctx.pick(200_000, 400_000), 96);
+    // payloads beyond what a record can carry, through the payload parser itself (its data argument is any slice): handshake messages
+    // whose 24-bit length is around 64 KiB, 10 MiB and 2^24-1, followed by a second message - exactly those two messages in wire order
+    ctx.run_fn("huge_messages", true, "a handshake message of 65535 / 65536 / 10 MiB - 1 / 10 MiB / 10 MiB + 1 / 2^24 - 1 body bytes followed by ServerHelloDone, through parse_tls_record_with_header", |obs| {
+        for (k, n) in [0xffffusize, 0x1_0000, 0xa0_0000 - 1, 0xa0_0000, 0xa0_0001, 0xff_ffff].into_iter().enumerate() {
+            obs.evals_add(1);
+            let first = [MHs::Finished(vec![0x5a; n]), MHs::ServerKeyExchange(vec![0xa5; n]), MHs::CertificateVerify(vec![7; n])][k % 3].clone();
+            let second = MHs::ServerDone(vec![]);
+            let mut data = first.to_bytes();
+            data.extend(second.to_bytes());
+            let hdr = TlsRecordHeader { record_type: TlsRecordType::Handshake, version: TlsVersion(0x0303), len: data.len() as u16 };
+            let got = guard("parse_tls_record_with_header", || parse_tls_record_with_header(&data, &hdr).map(|(rem, m)| (rem.len(), conv::msgs(&m))).map_err(|e| e.map(|x| x.code)))?;
+            match got {
+                Ok((rl, m)) => ensure!(rl == 0 && m == vec![MMsg::Hs(first.clone()), MMsg::Hs(second.clone())], "C03:huge-messages:messages", "a {} message of {} body bytes followed by ServerHelloDone decoded to {} message(s), {} bytes left", first.kind_name(), n, m.len(), rl),
+                Err(e) => return fail("C03:huge-messages:rejected", format!("a payload holding a {} message of {} body bytes (24-bit length {:#08x}) and a ServerHelloDone was rejected with {:?}", first.kind_name(), n, n, e)),
+            }
+            obs.nontrivial(n as u64);
+        }
+        obs.sample(json!({"body_sizes": [0xffff, 0x10000, 0x9fffff, 0xa00000, 0xa00001, 0xffffff]}));
+        Ok(())
+    });
 }
 
 #[derive(Debug, PartialEq, Clone)]
